@@ -94,7 +94,7 @@ theorem decScalar_spec (e : Endian) (p : Prim) (data : Bytes) (pos : Nat) (v : I
 
 theorem decSizer_spec (e : Endian) (p : Prim) (shift : Nat) (data : Bytes) (pos : Nat) (c sz : Nat)
     (h : decSizer e p shift data pos = .ok (c, sz)) :
-    inRange p ((c : Int) + (shift : Int)) = true ∧ c + shift ≤ arrayGuard ∧ pos + p.size ≤ data.length := by
+    inRange p ((c : Int) + (shift : Int)) = true ∧ c ≤ arrayGuard ∧ pos + p.size ≤ data.length := by
   unfold decSizer at h
   cases hd : decScalar e p data pos with
   | error x => simp [hd, bind, Except.bind] at h
@@ -442,10 +442,10 @@ structure FieldOk (all : List Member) (n : String) (t : Ty) (k : MKind)
   ty : hasField all k t v = true
   ag : agreeTy t v = true
   gd : guardTy t v = true
-  glen : ∀ s, k.sizer? = some s → v.len + sizerShift s all ≤ guardLimit
+  glen : ∀ s, k.sizer? = some s → v.len ≤ guardLimit
   mode :
     (k = .plain ∧ isSizer n all = true ∧ v = .sizer ∧ ∃ c, hints' = Py.boundHints all n c ++ hints ∧
-        (c : Int) + (sizerShift n all : Int) ≤ sizerMax n all ∧ c + sizerShift n all ≤ guardLimit) ∨
+        (c : Int) + (sizerShift n all : Int) ≤ sizerMax n all ∧ c ≤ guardLimit) ∨
     ((k = .plain → isSizer n all = false) ∧ v.isCounter = false ∧ hints' = hints ∧
       ∀ s, k.sizer? = some s → hints.lookup n = some v.len)
 
@@ -455,7 +455,7 @@ theorem field_spec (e : Endian) (all : List Member) (n : String) (t : Ty) (k : M
     (hsp : isSizer n all = true → k = .plain ∧ ∃ p, t = .prim p ∧ sizerMax n all = (primRange p).2)
     (hshift : ∀ s, k.sizer? = some s → k.shift = sizerShift s all)
     (hh : ∀ s, k.sizer? = some s → ∀ c, hints.lookup n = some c →
-        (c : Int) + (sizerShift s all : Int) ≤ sizerMax s all ∧ c + sizerShift s all ≤ guardLimit)
+        (c : Int) + (sizerShift s all : Int) ≤ sizerMax s all ∧ c ≤ guardLimit)
     (h : Py.decField_dt e all n t k f data pos0 hints = .ok (v, sz, hints')) :
     FieldOk all n t k hints v hints' := by
   cases k with
@@ -919,11 +919,11 @@ theorem sizerBefore_of_pyRt (all : List Member) (hp : pyRtMs all all [] = true) 
 
 def HintsOk_dt (all : List Member) (hints : List (String × Nat)) : Prop :=
   ∀ m ∈ all, ∀ s, m.kind.sizer? = some s → ∀ c, hints.lookup m.name = some c →
-    (c : Int) + (sizerShift s all : Int) ≤ sizerMax s all ∧ c + sizerShift s all ≤ guardLimit
+    (c : Int) + (sizerShift s all : Int) ≤ sizerMax s all ∧ c ≤ guardLimit
 
 theorem hintsOk_bound (all : List Member) (UQ : ∀ m ∈ all, ∀ m' ∈ all, m.name = m'.name → m = m')
     (n : String) (c : Nat) (hints : List (String × Nat)) (h : HintsOk_dt all hints)
-    (hb : (c : Int) + (sizerShift n all : Int) ≤ sizerMax n all ∧ c + sizerShift n all ≤ guardLimit) :
+    (hb : (c : Int) + (sizerShift n all : Int) ≤ sizerMax n all ∧ c ≤ guardLimit) :
     HintsOk_dt all (Py.boundHints all n c ++ hints) := by
   intro m hm s hs c' hl
   rw [lookup_append'] at hl
